@@ -28,8 +28,8 @@ import (
 type identityDictionary struct {
 	mu sync.Mutex
 	// dict is a global cache of identities keyed by
-	// modulename:identityname, where modulename is the full name of the
-	// module to which the identity belongs. If the identity were defined
+	// modulename:identityname, where modulename is the full name
+	// (name@revision) of the module to which the identity belongs. If the identity were defined
 	// in a submodule, then the parent module name is used instead.
 	dict map[string]resolvedIdentity
 }
@@ -106,7 +106,7 @@ func (mod *Module) findIdentityBase(baseStr string) (*resolvedIdentity, []error)
 			errs = append(errs, fmt.Errorf("%s: can't resolve the local base %s: module %s of submodule %s is not loaded", source, baseStr, mod.BelongsTo.Name, mod.Name))
 			break
 		}
-		keyName := fmt.Sprintf("%s:%s", m.Name, baseName)
+		keyName := fmt.Sprintf("%s:%s", m.FullName(), baseName)
 		base, ok = typeDict.identities.dict[keyName]
 		if !ok {
 			errs = append(errs, fmt.Errorf("%s: can't resolve the local base %s as %s", source, baseStr, keyName))
@@ -124,7 +124,7 @@ func (mod *Module) findIdentityBase(baseStr string) (*resolvedIdentity, []error)
 			errs = append(errs,
 				fmt.Errorf("%s: can't find the module that %s belongs to", source, extmod.Name))
 			break
-		} else if id, ok := typeDict.identities.dict[fmt.Sprintf("%s:%s", m.Name, baseName)]; ok {
+		} else if id, ok := typeDict.identities.dict[fmt.Sprintf("%s:%s", m.FullName(), baseName)]; ok {
 			base = id
 			break
 		}
